@@ -4,7 +4,7 @@ evidence (`callees_modelled`). A callee without a model and without a body abort
 import re
 import z3
 from .sym import *
-from .prog import strip_generics, base_name
+from .prog import strip_generics, base_name, norm_callee
 
 ORDERS = ["Relaxed", "Release", "Acquire", "AcqRel", "SeqCst"]
 
@@ -37,13 +37,16 @@ def atomic_sort(eng, path):
 
 def m_atomic_load(eng, ctx, f, path, args, dty):
     o, p = atomic_loc(eng, ctx, args[0])
-    return ctx.mem_read(o, p, atomic_sort(eng, path), True, order_name(args[1]), "load")
+    v = ctx.mem_read(o, p, atomic_sort(eng, path), True, order_name(args[1]), "load")
+    ctx.last.site = True
+    return v
 
 
 def m_atomic_store(eng, ctx, f, path, args, dty):
     o, p = atomic_loc(eng, ctx, args[0])
     s = atomic_sort(eng, path)
     ctx.mem_write(o, p, s, eng.to_scalar(args[1], s), True, order_name(args[2]), "store")
+    ctx.last.site = True
     return UNIT
 
 
@@ -52,7 +55,9 @@ def _rmw(name, fn):
         o, p = atomic_loc(eng, ctx, args[0])
         s = atomic_sort(eng, path)
         v = eng.to_scalar(args[1], s)
-        return ctx.mem_rmw(o, p, s, lambda old: fn(old, v), None, order_name(args[2]), name)
+        r = ctx.mem_rmw(o, p, s, lambda old: fn(old, v), None, order_name(args[2]), name)
+        ctx.last.site = True
+        return r
     return h
 
 
@@ -62,6 +67,7 @@ def m_cas(eng, ctx, f, path, args, dty):
     cur = eng.to_scalar(args[1], s)
     new = eng.to_scalar(args[2], s)
     old = ctx.mem_rmw(o, p, s, lambda old: new, lambda old: old == cur, order_name(args[3]), "cas", forder=order_name(args[4]))
+    ctx.last.site = True
     ok = old == cur
     return Fork([(ok, Enum(0, {0: Agg({0: old})}, "Result")), (z3.Not(ok), Enum(1, {1: Agg({0: old})}, "Result"))])
 
@@ -93,6 +99,7 @@ def m_fetch_update(eng, ctx, f, path, args, dty):
         raise Unsupported("fetch_update closure may return None: not modelled")
     newv = r.v[1].f[0]
     got = ctx.mem_rmw(o, p, s, lambda x: z3.substitute(newv, (old, x)), None, order_name(args[1]), "fetch_update")
+    ctx.last.site = True
     return Enum(0, {0: Agg({0: got})}, "Result")
 
 
@@ -103,14 +110,21 @@ def m_unsafecell_get(eng, ctx, f, path, args, dty):
 def m_ptr_write(eng, ctx, f, path, args, dty):
     m = re.search(r"impl \*mut (.*)>::write", path)
     ty = m.group(1) if m else None
+    before = ctx.last
     eng.store_ptr(ctx, args[0], args[1], ty)
+    if ctx.last is not before:
+        ctx.last.site = True
     return UNIT
 
 
 def m_ptr_read(eng, ctx, f, path, args, dty):
     m = re.search(r"impl \*(?:mut|const) (.*)>::read", path)
     ty = m.group(1) if m else dty
-    return eng.load_ptr(ctx, args[0], ty)
+    before = ctx.last
+    r = eng.load_ptr(ctx, args[0], ty)
+    if ctx.last is not before:
+        ctx.last.site = True
+    return r
 
 
 def m_box_new(eng, ctx, f, path, args, dty):
@@ -144,7 +158,56 @@ def m_trailing_ones(eng, ctx, f, path, args, dty):
     return r
 
 
+def _enum_of(eng, ctx, v):
+    if isinstance(v, Ptr):
+        v = eng.load_ptr(ctx, v)
+    if not isinstance(v, Enum):
+        raise Unsupported(f"expected an enum value, got {v}")
+    return v
+
+
+def _is_variant(k):
+    def h(eng, ctx, f, path, args, dty):
+        return eng.discr_is(_enum_of(eng, ctx, args[0]).discr, k)
+    return h
+
+
+def m_unwrap(some_idx):
+    def h(eng, ctx, f, path, args, dty):
+        e = _enum_of(eng, ctx, args[0])
+        ok = eng.discr_is(e.discr, some_idx)
+        payload = e.v.get(some_idx, Agg()).f.get(0, UNIT)
+        return Fork([(ok, payload), (z3.Not(ok), Diverge("panic", f"{norm_callee(path)} on the other variant"))])
+    return h
+
+
+def m_unwrap_or(eng, ctx, f, path, args, dty):
+    e = _enum_of(eng, ctx, args[0])
+    ok = eng.discr_is(e.discr, 1)
+    payload = e.v.get(1, Agg()).f.get(0, UNIT)
+    return Fork([(ok, payload), (z3.Not(ok), args[1])])
+
+
+def m_option_copied(eng, ctx, f, path, args, dty):
+    e = _enum_of(eng, ctx, args[0])
+    if 1 in e.v and 0 in e.v[1].f and isinstance(e.v[1].f[0], Ptr):
+        inner = e.v[1].f[0]
+        isn = eng.discr_is(e.discr, 1)
+        if isinstance(e.discr, int) and e.discr == 0:
+            return Enum(0, {}, "Option")
+        return Fork([(isn, lambda c: Enum(1, {1: Agg({0: eng.load_ptr(c, inner)})}, "Option")), (z3.Not(isn), Enum(0, {}, "Option"))])
+    return e
+
+
 BASE = {
+    r"^Result::is_ok$": _is_variant(0),
+    r"^Result::is_err$": _is_variant(1),
+    r"^Option::is_some$": _is_variant(1),
+    r"^Option::is_none$": _is_variant(0),
+    r"^Option::(unwrap|expect)$": m_unwrap(1),
+    r"^Result::(unwrap|expect)$": m_unwrap(0),
+    r"^Option::unwrap_or$": m_unwrap_or,
+    r"^Option::(copied|cloned)$": m_option_copied,
     r"Atomic\w*::load$": m_atomic_load,
     r"Atomic\w*::store$": m_atomic_store,
     r"Atomic\w*::fetch_add$": _rmw("fetch_add", lambda o, v: o + v),
